@@ -344,7 +344,7 @@ let schema_wf (c : ctx) : bool =
 let () = run_protocol (fun case0 impl -> with_schema case0 (fun c case ->
   if case = "SCHEMA" then
     (* which hypotheses of the theorems the compiled schema meets *)
-    let m = Printf.sprintf "OK wf=%s nodata=%s" (b01 (c03_wf c)) (b01 (c03_nodata c)) in
+    let m = Printf.sprintf "OK wf=%s" (b01 (c03_wf c)) in
     (m, oracle impl, oracle m)
   else if not (schema_wf c) then ("MODEL-ERROR schema violates c03_wf", oracle impl, false)
   else
